@@ -30,6 +30,7 @@ def areas : List (String × Handler) := [
   ("nstext", SyntaxD.handle),
   ("dryparam", DryParamD.handle),
   ("nsbytecode", BytecodeD.handle),
-  ("filtersem", FilterSemD.handle)
+  ("filtersem", FilterSemD.handle),
+  ("boolparse", FilterSemD.handleRead)
 ]
 end Driver
